@@ -17,7 +17,9 @@ refuted       : coq/refuted/R_C10.v -- HttpStreamSession before the repair (fixe
                 request further turns (process() after on_cancel).  Replayed on the real code on every run (WITNESSES).
 correspondence: the ``Life`` service (harness/c10_service.py: interpreter programs + emit-twice steps + raising on_cancel
                 + an exchange with a declared three-field input schema) on the REAL RpcServer over pipe, unix and the
-                in-process HTTP app x max_response_bytes {None, 1, 10^7}; per operation the client events and the
+                in-process HTTP app x max_response_bytes {None, 1, 10^7}; HTTP runs go through a fault-injecting client
+                wrapper (harness.c10_service.FlakyClient) so that cancel() can lose its response / never send its request,
+                after which the history continues with cancel(), next_with_token(), iteration, exchange(), close(); per operation the client events and the
                 process()/on_cancel invocation log are compared with life_pipe / life_http evaluated in Coq;
                 _coerce_input_batch is compared with [coerce] over a cast table obtained from pyarrow itself.
 
@@ -33,6 +35,10 @@ Readings adopted (DESIGN Appendix E and here):
   tallied as excluded.
 * the statement says nothing about a session after close() or about two live iterators on one HttpStreamSession; scripts
   start a second iteration only after a cancel.
+* a cancel whose request fails in the client (HTTP; injected: response lost / request never sent) is still a cancel the
+  client issued: afterwards the hook may have run at most once IN TOTAL, nothing is processed, every use is refused.
+  next_with_token() answering a cancelled session with (None, None) -- its documented end-of-stream answer -- counts as
+  refusing (no data, no dispatch); iteration and exchange() must raise RpcError (their docstrings promise it).
 * input-schema cases are per session (a socket session fixes the IPC schema of its input stream with the first batch).
 """
 from __future__ import annotations
@@ -121,6 +127,32 @@ def gen_life(rng: Any) -> tuple[str, dict[str, Any], list[Any]]:
     return method, prog, ops
 
 
+def gen_fault(rng: Any) -> tuple[str, dict[str, Any], list[Any]]:
+    """HTTP only: a cancel whose POST fails in the client (response lost / request never sent), then the history goes on
+    with cancel() again, next_with_token(), iteration, exchange(), close()."""
+    method, prog, _ = gen_life(rng)
+    n = len(prog["steps"])
+    ops: list[Any] = []
+    fault = lambda: ["cancel_fault", rng.choice(["lost", "lost", "refused"])]  # noqa: E731
+    if method.startswith("producer"):
+        style = rng.choice(["next", "next", "iter", "none"])
+        if style == "next":
+            ops += [["next"] for _ in range(rng.choice([0, 1, 1, 2, n, n + 1]))]
+        elif style == "iter":
+            ops.append(["iter", rng.choice([0, 1, 2, n])])
+        ops.append(fault() if rng.random() < 0.85 else ["cancel"])
+        for _ in range(rng.choice([1, 2, 3, 4])):
+            o = rng.choice(["cancel", "cancel", "fault", "next", "next", "iter", "close"] + (["resume"] if style == "iter" else []))
+            ops.append(fault() if o == "fault" else (["iter", rng.choice([None, 1])] if o == "iter" else [o]))
+    else:
+        ops += [["exch", None] for _ in range(rng.choice([0, 1, 2, n]))]
+        ops.append(fault() if rng.random() < 0.85 else ["cancel"])
+        for _ in range(rng.choice([1, 2, 3])):
+            o = rng.choice(["cancel", "cancel", "fault", "exch", "close"])
+            ops.append(fault() if o == "fault" else (["exch", None] if o == "exch" else [o]))
+    return method, prog, ops
+
+
 # --------------------------------------------------------------------------- reference (what the program emits)
 def effective_step(st: dict[str, Any]) -> dict[str, Any]:
     """A step that emits twice raises at the second emit, before finish / raise are reached."""
@@ -181,6 +213,10 @@ def c_op(o: list[Any]) -> str:
         return "XOp OClose"
     if o[0] == "cancel":
         return "XOp OCancel"
+    if o[0] == "cancel_fault":
+        return f"XOp (OCancelF {'true' if o[1] == 'lost' else 'false'})"
+    if o[0] == "next":
+        return "XOp ONext"
     if o[1] is None:
         return "XOp (OExch None)"
     return f"XTyped t_{o[1]} msgT_{o[1]} msgK_{o[1]}"
@@ -232,6 +268,12 @@ def run(ctx: Any) -> None:
         pid += 1
         method, prog, ops = gen_life(rng)
         cases.append({"pid": pid, "method": method, "prog": prog, "ops": ops})
+    for _ in range(400 if thorough else 50):
+        pid += 1
+        method, prog, ops = gen_fault(rng)
+        # next_with_token needs one batch per response (documented): caps None / 1 only
+        cases.append({"pid": pid, "method": method, "prog": prog, "ops": ops, "http_only": True,
+                      "caps": [None, 1] if any(o[0] == "next" for o in ops) else caps})
     typed_prog = {"init_logs": [], "init": "ok", "header": 0, "steps": [_E1] * 4, "cancel_raises": False}
     for name in S.PERTURB:
         pid += 1
@@ -250,12 +292,14 @@ def run(ctx: Any) -> None:
     for c in cases:
         method, prog, ops = c["method"], c["prog"], c["ops"]
         producer = S.IS_PRODUCER[method]
-        has_cancel = any(o[0] == "cancel" for o in ops)
+        has_cancel = any(o[0] in ("cancel", "cancel_fault") for o in ops)
         ctx.case([method, prog, ops], nontrivial=(bool(prog["steps"]) and has_cancel) or method == "typed")
         ctx.tally("method", method)
         ctx.tally("steps", len(prog["steps"]))
         ctx.tally("ops_shape", " ".join(o[0] for o in ops))
-        first_cancel = next((j for j, o in enumerate(ops) if o[0] == "cancel"), None)
+        first_cancel = next((j for j, o in enumerate(ops) if o[0] in ("cancel", "cancel_fault")), None)
+        if c.get("http_only"):
+            ctx.tally("cancel_fault", ",".join(o[1] for o in ops if o[0] == "cancel_fault") or "-")
         ctx.tally("first_cancel_at", first_cancel)
         if first_cancel is not None:
             ctx.tally("after_cancel", ",".join(o[0] for o in ops[first_cancel + 1:]) or "-")
@@ -264,9 +308,9 @@ def run(ctx: Any) -> None:
             ctx.tally("producer_ending", ending + ("+emit_finish" if any(s["finish"] and s["emit"] is not None for s in prog["steps"]) else ""))
         script = {"method": method, "pid": c["pid"], "ops": ops}
         runs: list[tuple[str, Any, dict[str, Any]]] = []
-        for k in sockets:
+        for k in ([] if c.get("http_only") else sockets):
             runs.append((k, None, S.run_ops(k, None, script)))
-        for cap in (caps if "witness" not in c else [c["wcap"]]):
+        for cap in (c.get("caps", caps) if "witness" not in c else [c["wcap"]]):
             runs.append(("http", cap, S.run_ops("http", cap, script)))
         ctx.count("impl_runs", len(runs))
         for kind, cap, res in runs:
@@ -294,7 +338,8 @@ def run(ctx: Any) -> None:
             cancelled = False
             suspended = False
             n_cancel = 0
-            cursor_calls = 0
+            faulted = False     # an earlier cancel() of this session had its POST fail
+            live_key = "http-session-live-after-failed-cancel-request"
             first_iter = True
             for j, (o, (ev, cs)) in enumerate(zip(ops, res["ops"])):
                 procs = [x for x in cs if x[0] in ("process", "typed_input")]
@@ -309,21 +354,28 @@ def run(ctx: Any) -> None:
                     suspended = was_suspended and not (ev and ev[-1][0] in ("done", "error"))
                 if cancelled:
                     if procs:
-                        key = "http-suspended-iterator-continues-after-cancel" if kind == "http" and o[0] == "resume" else "process-after-cancel"
+                        key = live_key if faulted else ("http-suspended-iterator-continues-after-cancel" if kind == "http" and o[0] == "resume" else "process-after-cancel")
                         viol(key, "the state was processed again after cancel", c, kind, cap, res, op_index=j)
-                    if o[0] in ("iter", "resume", "exch"):
+                    if n_cancel > 1 and faulted:
+                        viol(live_key, "the cancel hook ran again: a cancel() whose request failed left the session's token live", c, kind, cap, res, op_index=j)
+                    if o[0] == "cancel_fault":
+                        faulted = True
+                    if o[0] in ("iter", "resume", "exch", "next"):
                         uses = not (o[0] == "iter" and o[1] == 0) and not (o[0] == "resume" and not was_suspended)
                         if got:
                             key = {"iter": "http-iterate-after-cancel-yields-preloaded-batches", "resume": "http-suspended-iterator-continues-after-cancel"}.get(o[0]) if kind == "http" else None
-                            viol(key or f"use-after-cancel-delivers-data:{o[0]}", "a cancelled session delivered data", c, kind, cap, res, op_index=j)
+                            viol(live_key if faulted else (key or f"use-after-cancel-delivers-data:{o[0]}"), "a cancelled session delivered data", c, kind, cap, res, op_index=j)
+                        elif o[0] == "next":
+                            pass    # next_with_token answers a dead session with (None, None) or an RpcError: no data, no dispatch
                         elif uses and len(errs) != 1:
                             key = "http-iterate-after-cancel-returns-silently" if kind == "http" and o[0] in ("iter", "resume") else f"use-after-cancel-not-refused:{o[0]}"
                             viol(key, "a cancelled session did not refuse further use with an RpcError", c, kind, cap, res, op_index=j)
                     elif errs:
                         viol("cancel-or-close-reports-error", "close/cancel after a cancel reported an error", c, kind, cap, res, op_index=j)
                     continue
-                if o[0] == "cancel":
+                if o[0] in ("cancel", "cancel_fault"):
                     cancelled = True
+                    faulted = faulted or o[0] == "cancel_fault"
                     if errs:
                         viol("cancel-reports-error", "cancel() reported an error", c, kind, cap, res, op_index=j)
                     if procs:
@@ -349,7 +401,7 @@ def run(ctx: Any) -> None:
                     if reaches_end:
                         closed = closed or kind != "http"
                     continue
-                if o[0] == "resume":
+                if o[0] in ("resume", "next"):
                     continue
                 if o[0] == "exch" and not closed:
                     if over_hard_cap("exchange", {"max_response_bytes": cap}, ev):
@@ -379,7 +431,7 @@ def run(ctx: Any) -> None:
                             ctx.count("exchange_finish_refused_seen")
                         if kind != "http":
                             closed = True
-            if n_cancel > 1:
+            if n_cancel > 1 and not faulted:
                 viol("on-cancel-more-than-once", "the cancel hook ran more than once", c, kind, cap, res)
             if "witness" in c and kind == "http":
                 hit = any(v["key"] == c["witness"] for v in ctx.violations)
